@@ -76,6 +76,16 @@ def jobs(seed=0):
         for al, shapes in ALIAS3.items():
             for n, sh in enumerate(shapes):
                 J.append(mk(fn, src, contract, repl, sh, stride_pick(seed, 3, n + al), al, "quick", P))
+        # fixed (seed-independent) out-of-place shapes with EQUAL padded strides and at least two common limbs: block-move fast
+        # paths keyed on "same slice" touch the padding (or an interleaved source) only there -- added after seed
+        # C18-copy_same_slice_block was missed by a quick run whose rotated stride patterns had no such shape
+        have = set(j.name for j in J)
+        for sh in ((2, 2, 2), (3, 2, 2)):
+            for st in (STRIDES[1], STRIDES[2]):
+                j = mk(fn, src, contract, repl, sh, (st, st, st), 0, "quick", P)
+                if j.name not in have:
+                    have.add(j.name)
+                    J.append(j)
         # thorough: whole box to 4 limbs, every stride pattern for the non-aliased case
         for sh in itertools.product(range(4), repeat=3):
             for sp in [(STRIDES[0],) * 3, (STRIDES[1],) * 3, (STRIDES[2],) * 3, (STRIDES[1], STRIDES[2], STRIDES[0])]:
@@ -86,6 +96,13 @@ def jobs(seed=0):
                         gq=0 if sh[0] < 3 else 1))
         for n, sh in enumerate(ALIAS2):
             J.append(mk(fn, src, contract, repl, (sh[0], sh[1], None), stride_pick(seed, 2, n + 1), 1, "quick", P))
+        have = set(j.name for j in J)
+        for sh in ((2, 2), (3, 2), (2, 3)):
+            for st in (STRIDES[1], STRIDES[2]):
+                j = mk(fn, src, contract, repl, (sh[0], sh[1], None), (st, st, (1, 0)), 0, "quick", P)
+                if j.name not in have:
+                    have.add(j.name)
+                    J.append(j)
         for sh in itertools.product(range(4), repeat=2):
             for sp in itertools.product(STRIDES, repeat=2):
                 J.append(mk(fn, src, contract, repl, (sh[0], sh[1], None), (sp[0], sp[1], (1, 0)), 0, "thorough", P,
